@@ -54,6 +54,9 @@ def parse_trace(text):
         e.kind = k
         head, _, snap = line.partition(" | ")
         w = head.split()
+        # a library that crashes mid-run leaves a cut last line: skip anything malformed
+        if len(w) < 5 or not w[1].isdigit() or not (w[2][:1] == "w" and w[2][1:].isdigit()):
+            continue
         e.step = int(w[1])
         e.w = int(w[2][1:])
         a = w[3]
